@@ -44,6 +44,20 @@ deriving DecidableEq, Repr
 /-- a parser over a byte slice: value and the unread rest, or the error -/
 abbrev Parser (α : Type) := Bytes → Except SerErr (α × Bytes)
 
+/-- the `?` operator of the Rust readers: run a read, hand its value and the unread rest to the
+continuation, propagate the error. (A plain function rather than a `match` so that proofs rewrite
+the first read with its round-trip lemma before anything is evaluated.) -/
+def andThen {α β : Type} (p : Except SerErr (α × Bytes)) (f : α → Bytes → Except SerErr (β × Bytes)) :
+    Except SerErr (β × Bytes) :=
+  match p with
+  | .ok (a, r) => f a r
+  | .error e => .error e
+
+@[simp] theorem andThen_ok {α β : Type} (a : α) (r : Bytes) (f : α → Bytes → Except SerErr (β × Bytes)) :
+    andThen (.ok (a, r)) f = f a r := rfl
+@[simp] theorem andThen_error {α β : Type} (e : SerErr) (f : α → Bytes → Except SerErr (β × Bytes)) :
+    andThen (.error e : Except SerErr (α × Bytes)) f = .error e := rfl
+
 /-- `ProtocolVersion::local()` = `global::PROTOCOL_VERSION`; the version a `HashWriter` reports -/
 def LOCAL_VERSION : Nat := 1000
 /-- `ProtocolVersion::local_db()` -/
